@@ -349,6 +349,12 @@ pub fn generate(rng: &Rng, world: &World, tier: &str) -> C17 {
             labels.push(l.to_string());
             v.push((l.to_string(), spec));
         }
+        if crate::c04::big_model() && r.chance(1, 2) {
+            // a context set whose text form exceeds the buffers of the compression layer
+            let l = "big_ctx".to_string();
+            labels.push(l.clone());
+            v.push((l, SetSpec::Large(r.next_u64() % 1_000_000, 1_000_000 + 131072 * r.range(1, 2) as u64 - r.range(0, 6000) as u64)));
+        }
         ctx = Some(v);
     }
     let mut w2 = world.clone();
